@@ -6,6 +6,7 @@ import (
 	"encoding/binary"
 	"encoding/json"
 	"fmt"
+	"github.com/ipld/go-ipld-prime/node/basicnode"
 	"math"
 	"math/big"
 	"math/rand"
@@ -210,7 +211,18 @@ func ReplayJsonEnc(cs *JsonCase, seed int64, limit int) (*run.Finding, int) {
 		}
 	}
 	// decode: the same value, sorted, with the same kinds
-	for _, impl := range []string{"basic", "bind"} {
+	for ii, impl := range []string{"basic", "bind"} {
+		// A round trip does not depend on what the process decoded before: every other time, decodes that FAIL right
+		// after the decoder's look-ahead for the special forms (a link that is no CID, bytes that are no base64, a
+		// map fed to a builder that refuses it, a document that ends early) come first.
+		if ii == 1 {
+			for _, bad := range []string{`{"/":"not a cid"}`, `{"/":{"bytes":"*"}}`, `{"/":{"bytes":"AQ"},"x":1}`, `{"a":{"/":`, `[{"/":{"bytes":[1,`} {
+				model.Safe(func() {
+					dagjson.Decode(basicnode.Prototype.Any.NewBuilder(), bytes.NewReader([]byte(bad)))
+					dagjson.Decode(basicnode.Prototype.String.NewBuilder(), bytes.NewReader(first))
+				})
+			}
+		}
 		np, _ := model.ProtoFor(impl, cs.V.K)
 		nb := np.NewBuilder()
 		var derr error
